@@ -13,7 +13,7 @@ LEVEL = 'exploration'
 BUDGET = {'quick': 1200, 'thorough': 5000}
 RULE = ('Hypothesis-generated histories over one root ResourceMap: set(path, value) with plain or /-composed keys '
         'of depth 1-4 over 8 path components (incl. empty string, blank, dotted, non-ASCII), values = fresh '
-        'handle (some of them falsy objects, some with value equality - equal-but-distinct, hashable or not - also assigned twice to one path) / empty map / pre-populated map / layered map; clear(map); push_layer(map) (handles.maps.insert(0, '
+        'handle / map values (some maps are instances of a ResourceMap subclass; some handles falsy objects, some with value equality - equal-but-distinct, hashable or not - also assigned twice to one path) / empty map / pre-populated map / layered map; clear(map); push_layer(map) (handles.maps.insert(0, '
         '{}) as the directory populator does). Oracle: nested reference model (latest assignment wins, composite '
         'keys turn intermediate names into maps); after EVERY step, for every model path and for absent paths '
         '(extensions, paths through handles, siblings): m[path], chained m[a][b][c] and m.get(path)() denote the '
@@ -113,6 +113,10 @@ def strategy():
                                   'amp': worldops.size_amp(none=24, sizes=(17, 33, 34, 40, 70, 130))})
 
 
+class Atlas(desper.ResourceMap):
+    """a program's own kind of resource map (a ResourceMap subclass is a map like any other)"""
+
+
 class MMap:
     """model of one ResourceMap"""
 
@@ -175,10 +179,14 @@ class Run:
                 self.flags['value_equal_handle'] += 1
             return h, h
         if kind == 2:
-            m = desper.ResourceMap()
+            m = Atlas() if self.step_ix % 3 == 1 else desper.ResourceMap()
+            if isinstance(m, Atlas):
+                self.flags['map_of_a_ResourceMap_subclass'] += 1
             return m, MMap(m)
         if kind in (3, 4):      # pre-populated: handle 'p', handle under 'q/r' (implicit intermediate), sub-map 'a'
-            m = desper.ResourceMap()
+            m = Atlas() if self.step_ix % 3 == 2 else desper.ResourceMap()
+            if isinstance(m, Atlas):
+                self.flags['map_of_a_ResourceMap_subclass'] += 1
             mm = MMap(m)
             hp, hr = H(), H()
             m['p'] = hp
